@@ -18,7 +18,8 @@ def persist_precip(cfg):
             ev.append({"e": "exception", "msg": "run: " + res["error"]}); return ev, info
         m = res["model"]
         info["steps"] = int(m.pData.n)
-        path = os.path.join(tmp, "model")
+        # file names as users write them: a dot in the name that is not the extension (snapshots named by time)
+        path = os.path.join(tmp, "model_0.25h")
         m.save(path)
         m2, th2, obs2 = K.build(cfg)
         m2.load(path)
@@ -35,8 +36,9 @@ def persist_precip(cfg):
         ev.append({"e": "cmp", "name": "currentX", "c": arr_cmp(np.concatenate(m.getCurrentX()[1]), np.concatenate(m2.getCurrentX()[1]), 0.0)})
         ev.append({"e": "cmp", "name": "currentTime", "c": arr_cmp([m.getCurrentX()[0]], [m2.getCurrentX()[0]], 0.0)})
         # save -> load -> save is idempotent
-        path2 = os.path.join(tmp, "model2")
+        path2 = os.path.join(tmp, "model_0.50h")
         m2.save(path2)
+        ev.append({"e": "cmp", "name": "two-names-two-files", "c": "eq" if (os.path.exists(path + ".npz") and os.path.exists(path2 + ".npz") and len(os.listdir(tmp)) == 2) else "gt"})
         d1, d2 = dict(np.load(path + ".npz")), dict(np.load(path2 + ".npz"))
         ev.append({"e": "cmp", "name": "resave-keys", "c": "eq" if sorted(d1) == sorted(d2) else "gt"})
         for k in sorted(set(d1) & set(d2)):
